@@ -122,6 +122,74 @@ end
 
 end
 
+/-! ### the explicit-stack builder: one loop iteration -/
+
+theorem elemIter_eq (idx : String → Option Nat) (e : Expr) : elemIter idx e = elemIterG idx (compile idx) e := by
+  cases e <;> rfl
+
+theorem elemsIter_eq (idx : String → Option Nat) : (es : ExprList) →
+    elemsIter idx es = mapRec (elemIterG idx (compile idx)) es
+  | .nil => by simp [elemsIter, mapRec]
+  | .cons e t => by simp only [elemsIter, mapRec, elemIter_eq, elemsIter_eq idx t]
+
+/-- one iteration of `while stack:` of `_build_evaluator_iterative` in the model is the translated loop body -/
+theorem cstep_eq (idx : String → Option Nat) (s : CSt) :
+    cstep idx s =
+      (match s.stack with
+       | [] => .ok s
+       | (node, phase) :: rest => buildIterStepG idx (compile idx) (compileVec idx) node phase rest s.res) := by
+  unfold cstep
+  cases hs : s.stack with
+  | nil => rfl
+  | cons top rest =>
+    obtain ⟨node, phase⟩ := top
+    simp only []
+    cases node with
+    | const c => rfl
+    | var v => simp only [buildIterStepG, CSt.push]; cases lookupIdx idx v <;> rfl
+    | param p => rfl
+    | bin op l r =>
+      simp only [buildIterStepG]
+      split
+      · rfl
+      · cases s.res with
+        | nil => rfl
+        | cons f1 rs =>
+          cases rs with
+          | nil => rfl
+          | cons f3 rs4 => cases op <;> rfl
+    | un op a =>
+      simp only [buildIterStepG]
+      split
+      · rfl
+      · cases s.res <;> rfl
+    | linComb cs v =>
+      cases v with
+      | vars w => simp only [buildIterStepG, CSt.push]; cases lookupIdxs idx w.vars <;> rfl
+      | exprs es =>
+        simp only [buildIterStepG, CSt.push, elemsIter_eq]
+        cases mapRec (elemIterG idx (compile idx)) es <;> rfl
+    | vecSum v => simp only [buildIterStepG, CSt.push]; cases lookupIdxs idx v.vars <;> rfl
+    | exprSum es =>
+      simp only [buildIterStepG, CSt.push, elemsIter_eq]
+      cases mapRec (elemIterG idx (compile idx)) es <;> rfl
+    | dot l r =>
+      simp only [buildIterStepG, CSt.push]
+      cases compileVec idx l <;> cases compileVec idx r <;> rfl
+    | l2 v => simp only [buildIterStepG, CSt.push]; cases compileVec idx v <;> rfl
+    | l1 v => simp only [buildIterStepG, CSt.push]; cases compileVec idx v <;> rfl
+    | quad v q => simp only [buildIterStepG, CSt.push]; cases compileVec idx v <;> rfl
+    | powSum v k => simp only [buildIterStepG, CSt.push]; cases compile idx (.powSum v k) <;> rfl
+    | unSum v op => simp only [buildIterStepG, CSt.push]; cases compile idx (.unSum v op) <;> rfl
+    | matSumV m => simp only [buildIterStepG, CSt.push]; cases compile idx (.matSumV m) <;> rfl
+    | matSumE es => simp only [buildIterStepG, CSt.push]; cases compile idx (.matSumE es) <;> rfl
+    | frob m => simp only [buildIterStepG, CSt.push]; cases compile idx (.frob m) <;> rfl
+
+/-- initial stacks, the empty-result guard and the read-out -/
+theorem buildIterFrame_text :
+    buildIterFrameG = ["stack: list[tuple[Any, int, list]] = [(expr, 0, [])]", "result_stack: list[Callable] = []",
+      "if not result_stack: raise InvalidExpressionError", "return result_stack[-1]"] := by decide
+
 /-- the equations have a solution (non-vacuity of every `…_of_source_equations` statement about the compiler) -/
 theorem source_equations_solvable (idx : String → Option Nat) :
     ∃ (f : Expr → Except CErr Clo) (fv : Vec → Except CErr VClo),
